@@ -62,6 +62,16 @@ def make_case(seed, index, tier):
             'throughput': rng.choice([0.5, 1, 3]),
             'transfers': [[rng.choice(OFFSETS), rng.choice([1, 4, 16, 64]),
                            rng.choice([None, 0.5, 2, 16])] for _ in range(rng.randint(1, 4))]}
+    if isinstance(throughput, (int, float)) and rng.random() < 0.06:
+        # the same scenario in units that are 10^15 times smaller: volumes, limits and throughput
+        # around 1e-15 - times are ratios and stay what they were
+        micro = 1e-15
+        scenario['throughput'] = throughput * micro
+        for user in users:
+            user['rounds'] = [[offset, volume if volume == 'inf' else volume * micro,
+                               limit if limit in (None, 'inf') else limit * micro]
+                              for offset, volume, limit in user['rounds']]
+        scenario.pop('other_pipe', None)
     return {'seed': seed, 'index': index, 'tier': tier, 'scenario': scenario}
 
 
